@@ -458,6 +458,22 @@ func c17CLI(r *Run) {
 				}
 			}
 		}
+		// without -F the type is that of the output NAME, by its last extension, whatever dots the
+		// name has in front (seeded change W22-2: Detect cutting at the FIRST dot)
+		if strings.HasPrefix(in.name, "genbank/") && ii%3 == 1 {
+			for _, name := range []string{"out.fasta", "NC_001422.1.fasta", "a.b.c.fasta", "phix.v2.fa.fasta"} {
+				want, n, ok := c17CliExpected(in.text, c17CliCmds[0])
+				if !ok || n == 0 {
+					continue
+				}
+				res := d.run(cliRun{cmd: c17CliCmds[0].name, args: []string{"-o", "@OUT:" + name}, primary: inHex(in.text)}, true)
+				r.count("cli -o name.fasta/" + name)
+				if res.status != 0 || !bytes.Equal(res.out, want) {
+					r.fail(Failure{Oracle: "`gts " + c17CliCmds[0].name + " -o " + name + "` writes FASTA (the output type is that of the last extension of the name)",
+						Op: "cli.fasta " + encStr(c17CliCmds[0].name) + " " + encStr("-o "+name) + " " + encBytes(in.text), Got: fmt.Sprintf("%d %s", res.status, encBytes(res.out[:minInt(len(res.out), 60)])), Want: "0 " + encBytes(want[:minInt(len(want), 60)])})
+				}
+			}
+		}
 		// without the option a GenBank input stays GenBank: the option is what selects FASTA
 		if strings.HasPrefix(in.name, "genbank/") && ii%3 == 0 {
 			res := d.run(cliRun{cmd: "clear", primary: inHex(in.text)}, true)
